@@ -3,7 +3,7 @@
 From Coq Require Import PrimFloat ZArith List Bool Lia.
 Import ListNotations.
 Require Import PyBase Solver SolverFacts SolverF SolveAll SolveAllFacts Linker LinkerFacts LinkerFacts2 LinkerFacts3 LinkerFacts4
-               LinkerRange LinkerFacts5 LinkerF LinkerExamples.
+               LinkerRange LinkerFacts5 LinkerFacts7 LinkerF LinkerExamples.
 Open Scope Z_scope.
 
 (* ---- C08_solved_iff_all_moved_lt_tol on the two-submodel example of LinkerExamples: iteration 4 qualifies, none
@@ -148,4 +148,17 @@ Example lx_guard_hypotheses_satisfiable :
 Proof.
   repeat split; try (cbn; lia); try reflexivity;
     destruct H as [<-|[<-|[]]]; cbn; lia.
+Qed.
+
+(* ---- C08_single_model_linker_solve_eq_model_solve: the regime premise holds of the wrapped example over the range [1]
+        (the premises of one period are those of lx_single_hypotheses_satisfiable), and both runs return [True] ---- *)
+Example lx_range_regime_satisfiable :
+  regime float PrimFloat.sub PrimFloat.abs PrimFloat.ltb fisfin fzero (ls_sev 3 [(0%nat, lx_scA)]) (s_ev 3 lx_scA)
+         lx_dA (lx_opts 0 6) 0%nat [] 3 [1] lx_mA /\
+  snd (direct_solve float PrimFloat.sub PrimFloat.abs PrimFloat.ltb fisfin fzero (s_ev 3 lx_scA) lx_dA (lx_opts 0 6) [] [1] lx_mA) = inr [true].
+Proof.
+  destruct lx_single_hypotheses_satisfiable as (H1 & H2 & _ & _ & H5 & H6 & H7 & H8).
+  split; [|vm_compute; reflexivity]. split; [|intros; exact I].
+  exists 1%nat. split; [exact H5|]. split; [reflexivity|]. split; [reflexivity|]. split; [intros _; exact H2|].
+  split; [exact H6|]. split; [exact H7|exact H8].
 Qed.
